@@ -24,11 +24,13 @@ FUNCTIONS = ['helpers._escape_mecard', 'helpers._escape_vcard', 'helpers.make_wi
 EXPLANATION = ('WIFI / MeCard / vCard builders executed with one field as symbolic text (all character values, including ; : , \\ " CR LF); the '
                'produced payload is a character sequence of terms; reference parsers split and un-escape it under the explorer; z3 shows '
                'field structure and values are exactly the inputs. EPC validation and layout with symbolic characters at the documented length limits.')
-BOUNDS = {'quick': 'symbolic field length <= 3 (WIFI, MeCard) / <= 2 (vCard), one field at a time; EPC lengths: name 0/1/70/71, iban 4/5/34/35, bic 0/7/8/9/11/12, purpose 0/3/4/5, text 0/1/140/141, reference 0/1/35/36',
+BOUNDS = {'quick': 'symbolic field length <= 3 (WIFI, MeCard) / <= 2 (vCard), one field at a time; mailto: 48 presence patterns (to 1-2, cc 0-2, bcc 0-1, subject, body) with quoted texts of 2 (thorough 3) free characters; EPC lengths: name 0/1/70/71, iban 4/5/34/35, bic 0/7/8/9/11/12, purpose 0/3/4/5, text 0/1/140/141, reference 0/1/35/36',
           'thorough': 'symbolic field length <= 4 / <= 3; two symbolic fields at once for WIFI'}
-OUTSIDE = ('geo (float formatting) and mailto (urllib percent-encoding) are C / library code on symbolic text: checked on concrete values only; EPC amount formatting through decimal; '
+OUTSIDE = ('geo (float formatting) and the percent-encoding of mailto texts (urllib.parse.quote) are C / library code on symbolic text: checked on concrete values only '
+           '(the STRUCTURE of the mailto URI is decided by the solver with quote stubbed, see STUBS); EPC amount formatting through decimal; '
            'EPC fields with non-ASCII characters (charset selection); decoding of the symbols is C01')
-STUBS = ['segno.make_qr -> recorder in the factory glue check']
+STUBS = ['segno.make_qr -> recorder in the factory glue check',
+         'urllib.parse.quote (as imported by segno.helpers) -> arbitrary text over its documented output alphabet [A-Za-z0-9_.~/%-] of the stated length, in the mailto structure job']
 ASSUMPTIONS = ['reference parsers for MECARD/WIFI escaping and vCard line structure in /verif/props/c16.py', 'ASCII characters in symbolic fields (code points < 128)', 'z3 soundness']
 JOB_TIMEOUT = {'quick': 900, 'thorough': 2400}
 
@@ -60,6 +62,7 @@ def jobs(tier, seed):
     for nb in (270, 331):
         out.append({'name': f'epc:symbol:{nb}-bytes', 'kind': 'sym', 'nbytes': nb, 'cost': 400})
     out.append({'name': 'geo+mailto:concrete', 'kind': 'uri', 'cost': 2})
+    out.append({'name': 'mailto:structure', 'kind': 'mailto', 'n': 2 if tier == 'quick' else 3, 'cost': 40})
     return out
 
 
@@ -75,7 +78,7 @@ def run_job(spec):
         return r
     res = Result(spec['name'])
     L_ = sx_helpers()
-    {'wifi': job_wifi, 'mecard': job_mecard, 'vcard': job_vcard, 'epc': job_epc, 'fact': job_fact, 'uri': job_uri}[spec['kind']](res, L_, spec)
+    {'wifi': job_wifi, 'mecard': job_mecard, 'vcard': job_vcard, 'epc': job_epc, 'fact': job_fact, 'uri': job_uri, 'mailto': job_mailto}[spec['kind']](res, L_, spec)
     return res.as_dict()
 
 
@@ -505,6 +508,114 @@ def job_uri(res, L_, spec):
     res.sample({'case': 'geo / mailto', 'note': 'concrete values only (outside the solver claim)'})
 
 
+
+# ---------------------------------------------------------------- mailto: structure of the URI for every presence pattern
+MAILTO_TO = ('me@example.org', ('me@example.org', 'you@example.org'))
+MAILTO_CC = (None, 'c@example.org', ('c@example.org', 'd@example.org'))
+MAILTO_BCC = (None, 'b@example.org')
+QUOTE_ALPHABET = 'ABCDEFGHIJKLMNOPQRSTUVWXYZabcdefghijklmnopqrstuvwxyz0123456789_.-~/%'
+
+
+def mailto_expected(to, cc, bcc, subject, body):
+    """RFC 6068: mailto:<to>[?hfield(&hfield)*] - the header fields in the order segno documents"""
+    def multi(v):
+        return () if not v else ((v,) if isinstance(v, str) else tuple(v))
+    hf = []
+    if multi(cc):
+        hf.append(('cc', ','.join(multi(cc))))
+    if multi(bcc):
+        hf.append(('bcc', ','.join(multi(bcc))))
+    if subject is not None:
+        hf.append(('subject', subject))
+    if body is not None:
+        hf.append(('body', body))
+    return ','.join(multi(to)), hf
+
+
+def job_mailto(res, L_, spec):
+    """the real make_make_email_data with urllib's quote replaced by a stub that returns ANY text of its documented output
+    alphabet (unreserved characters, '/', '%'): the URI must split at the first '?' into the recipients and at '&' / first '='
+    into exactly the supplied header fields, for every presence pattern of cc / bcc / subject / body."""
+    H = L_.helpers
+    n = spec['n']
+    alphabet = [ord(c) for c in QUOTE_ALPHABET]
+    for to in MAILTO_TO:
+        for cc in MAILTO_CC:
+            for bcc in MAILTO_BCC:
+                for has_s in (False, True):
+                    for has_b in (False, True):
+                        syms, assume = {}, []
+                        for key, has in (('subject', has_s), ('body', has_b)):
+                            if has:
+                                sc = SChars.fresh(key[0], n)
+                                syms[key] = sc
+                                assume += [z3.Or(*[cw(c) == a for a in alphabet]) for c in sc.c]
+                        order = [k for k in ('subject', 'body') if k in syms]
+                        calls = []
+
+                        def quote_stub(val, *a, **k):
+                            calls.append(val)
+                            return syms[order[len(calls) - 1]]
+
+                        def build():
+                            del calls[:]
+                            old = H.quote
+                            H.quote = quote_stub
+                            try:
+                                return H.make_make_email_data(to, cc=cc, bcc=bcc, subject='S' if has_s else None, body='B' if has_b else None)
+                            finally:
+                                H.quote = old
+
+                        def parse(atoms):
+                            if atoms[:7] != chars('mailto:'):
+                                raise ParseError('scheme')
+                            rest = atoms[7:]
+                            k = 0
+                            while k < len(rest) and not (rest[k] == 63):
+                                k += 1
+                            path, query = rest[:k], rest[k + 1:]
+                            fields = [path]
+                            if k < len(rest):
+                                hfs = [[]]
+                                for a in query:
+                                    if a == 38:
+                                        hfs.append([])
+                                    else:
+                                        hfs[-1].append(a)
+                                fields += hfs
+                            for f in fields:
+                                for a in f:
+                                    if a == 35 or a == 32:
+                                        raise ParseError('fragment delimiter / space inside the URI')
+                            e_to, e_hf = mailto_expected(to, cc, bcc, syms.get('subject'), syms.get('body'))
+                            exp = [chars(e_to)]
+                            for key, val in e_hf:
+                                exp.append(chars(key + '=') + (list(val.c) if isinstance(val, SChars) else chars(val)))
+                            return fields, exp
+
+                        def kwargs(_text, to=to, cc=cc, bcc=bcc, has_s=has_s, has_b=has_b):
+                            return {'to': to, 'cc': cc, 'bcc': bcc, 'subject': 'S' if has_s else None, 'body': 'B' if has_b else None}
+                        sc0 = syms[order[0]] if order else SChars.fresh('none', 0)
+                        run_builder(res, build, parse, assume, sc0, f'mailto to={to!r} cc={cc!r} bcc={bcc!r} subject={has_s} body={has_b}', 'mailto-structure', kwargs)
+                        if order and len(calls) != len(order):
+                            res.concrete('quote-called-once-per-text', False, lambda: res.violation('mailto', 'quote calls', {'fn': 'mailto-structure', 'kwargs': kwargs(None)}))
+    res.sample({'case': spec['name'], 'symbolic': f'quote() output: {n} free characters of its output alphabet per text; 48 presence patterns',
+                'obligation': 'URI splits at first ? and at & into exactly the supplied header fields'})
+
+
+def mailto_concrete_parse(s):
+    from urllib.parse import unquote
+    if not s.startswith('mailto:'):
+        return None
+    rest = s[7:]
+    path, sep, query = rest.partition('?')
+    hf = []
+    if sep:
+        for part in query.split('&'):
+            k, _, v = part.partition('=')
+            hf.append((k, unquote(v) if k in ('subject', 'body') else v))
+    return path, hf
+
 # ---------------------------------------------------------------- replay
 def ref_split(s):
     fields = ['']
@@ -601,6 +712,12 @@ def replay(viol):
         return len(d) > 331, f'EPC payload of {len(d)} bytes accepted'
     if fn == 'factory':
         return True, f'{inp["factory"]}: payload / arguments not passed through'
+    if fn == 'mailto-structure':
+        kw = {k: (tuple(v) if isinstance(v, list) else v) for k, v in inp['kwargs'].items()}
+        s = H.make_make_email_data(kw['to'], cc=kw['cc'], bcc=kw['bcc'], subject=kw['subject'], body=kw['body'])
+        got = mailto_concrete_parse(s)
+        exp = mailto_expected(kw['to'], kw['cc'], kw['bcc'], kw['subject'], kw['body'])
+        return got != exp, f'make_make_email_data({kw}) = {s!r} parses to {got}, expected {exp}'
     if fn in ('geo', 'mailto', 'epc-amount'):
         return True, str(inp)
     return False, 'no replay'
